@@ -345,12 +345,16 @@ package proxy
 //@   ensures [C09] result != nil ==> upfails > old(upfails) || sferrs > old(sferrs) || iserr(result, ErrRangeNotSatisfiable) || ioerr(result)
 //@   ensures [C09] upfails == old(upfails) && sferrs == old(sferrs) && !ioerr(result) ==> httperrs(r) == old(httperrs(r)) || (httpstatus(r) == 416 && iserr(result, ErrRangeNotSatisfiable))
 
-// Every request read from a CONNECT tunnel is answered through a responder of its own.
+// Every request read from a CONNECT tunnel is answered through a responder of its own, and
+// all requests of a tunnel are read through the one buffered reader created for it (a second
+// reader over the same connection would lose what the first had buffered: connreader(c) is
+// the ghost "buffered reader that reads connection c").
 //@ spec func specProxy(p ptr) bool = p.cfg != nil && aset(p.cfg.Proxy.RetryOnInvalidRange.value) && specFetcher(p.fetch) && p.ca != nil
 //@ props C10 C16
 //@ func Proxy.handleCONNECT
 //@   requires specProxy(p) && proxyReq != nil
 //@   loop 1 invariant specProxy(p) && tlsConn != nil
+//@   loop 1 invariant [C10] connreader(tlsConn) == 0 || connreader(tlsConn) == connReader
 
 // ---------------------------------------------------------------- relaying (C08)
 
